@@ -843,6 +843,11 @@ class ktensor:
 
         if not isinstance(other, ktensor):
             assert False, "other must be a ktensor"
+        if other.shape != self.shape or other.ncomponents > self.ncomponents:
+            assert False, (
+                "other must have the shape of this ktensor and no more components "
+                "than it has"
+            )
         # Makes typing happy https://github.com/python/mypy/issues/4805
         # Work on a copy: the reference tensor must not be modified
         other_tensor = other.copy()
